@@ -9,6 +9,7 @@ import (
 	"strconv"
 	"strings"
 	"testing"
+	"unicode/utf8"
 
 	"go.lstv.dev/util/uu"
 	"pgregory.net/rapid"
@@ -30,6 +31,9 @@ type Case struct {
 	Limit int `json:"max_input_length,omitempty"`
 	// Hooks: before the case is judged, custom package-level Formatter and Parser functions are installed, used and removed.
 	Hooks bool `json:"after_custom_hooks,omitempty"`
+	// ViaParser: the rule is applied the only way UnmarshalText and encoding/json can be given one - through a package-level
+	// Parser that adds it - and the text goes through those two entry points (serial phases only).
+	ViaParser bool `json:"rule_through_package_parser,omitempty"`
 }
 
 // pokeWithCustomHooks: the package-level Formatter and Parser are settings; what was produced under one setting must not be
@@ -239,6 +243,37 @@ func judgeText(c Case, w *vkit.W) {
 				w.Fail(c, "invalid-digit-error-wrong-byte", fmt.Sprintf("%s(%q, rule=%d): InvalidDigitError(%#x) is not a non-digit byte of the input", path, text, c.Rule, byte(de)))
 			}
 		}
+	}
+	if c.ViaParser {
+		oldP := uu.Parser
+		defer func() { uu.Parser = oldP }()
+		rule := uu.Rule(c.Rule)
+		uu.Parser = func(input []byte, r uu.Rule) (uu.ID, error) { return uu.DefaultParser(input, r|rule) }
+		keep := uu.ID{Higher: 3, Lower: 4}
+		u := keep
+		err := u.UnmarshalText(w.Scratch(text))
+		if err != nil {
+			if u != keep {
+				w.Fail(c, "receiver-changed-on-error", fmt.Sprintf("UnmarshalText(%q) under a Parser adding rule %d: %v, receiver %v", text, c.Rule, err, u))
+			}
+			u = uu.ID{}
+		}
+		check("UnmarshalText (package-level Parser adds the rule)", u, err)
+		if q, qerr := json.Marshal(text); qerr == nil && utf8.ValidString(text) {
+			var ju uu.ID
+			jerr := json.Unmarshal(q, &ju)
+			if jerr != nil {
+				ju = uu.ID{}
+				var pe *uu.ParseError[[]byte]
+				if !errors.As(jerr, &pe) {
+					jerr = nil // encoding/json's own complaint: nothing to judge
+				}
+			}
+			if jerr != nil || ju != (uu.ID{}) || v.ok {
+				check("json.Unmarshal (package-level Parser adds the rule)", ju, jerr)
+			}
+		}
+		return
 	}
 	var got uu.ID
 	var err error
@@ -616,6 +651,27 @@ func TestCheck(t *testing.T) {
 				for _, rule := range rules {
 					judge(Case{Kind: "text", Text: vkit.B(text), Rule: rule, Hooks: true}, w)
 					w.EvalRandom(vkit.Hash64("W2", text, strconv.Itoa(rule)), true)
+				}
+			}
+		})
+	})
+
+	r.Phase("P: rules applied through a replaced package-level Parser (the way UnmarshalText and encoding/json are given a rule): valid forms, disabled forms and one-byte edits x 4 rule sets", func() {
+		r.Serial(func(w *vkit.W) {
+			for i := int64(0); i < 150; i++ {
+				g := r.Rng("viaparser", i)
+				plain := format(g.U64(), g.U64())
+				texts := []string{plain, strings.ToUpper(plain), "urn:uuid:" + plain, "urn:uuid:" + strings.ToUpper(plain), "URN:UUID:" + plain}
+				pos := int(g.U64() % 36)
+				for _, sub := range []byte{'g', '-', ' ', 'A', 'f'} {
+					texts = append(texts, plain[:pos]+string(sub)+plain[pos+1:], "urn:uuid:"+plain[:pos]+string(sub)+plain[pos+1:])
+				}
+				texts = append(texts, plain[:35], plain+"0", "urn:uuid:"+plain[:35])
+				for _, text := range texts {
+					for _, rule := range rules {
+						judge(Case{Kind: "text", Text: vkit.B(text), Rule: rule, ViaParser: true}, w)
+						w.EvalRandom(vkit.Hash64("P", text, strconv.Itoa(rule)), true)
+					}
 				}
 			}
 		})
